@@ -1,9 +1,47 @@
 import os, sys
 sys.path.insert(0, os.path.dirname(os.path.abspath(__file__)))
 import parfor_common
+import vlib
 
-THEOREMS = []
+THEOREMS = ["Dispenso.ParForExec." + t for t in [
+    "C14_exclusive", "C14_tail_alone", "C14_tail_once", "C14_until_wait", "C14_return_wait", "sysOf_wf",
+    "C14_index_in_container", "C14_states_nonempty", "C14_states_bound", "C14_empty_range_untouched"]]
+
+ORDER_SIG = ("parallel_for wait=false dynamic: granularity tail on states[0] is not ordered after the other workers' "
+             "bodies (exit ticket fetch_add is relaxed)")
 
 
 def run(ctx, replay):
-    parfor_common.run_parfor(ctx, replay, "C14", THEOREMS, "DispensoVerif.Props.C14", known_probe=False)
+    conc_only = bool(replay and replay.get("harness", "").startswith("conc/"))
+    if not conc_only:
+        # the bodies of C14 runs spin for a while inside each invocation (to widen overlaps), so the thorough tier visits
+        # a stride of the 8-bit grid instead of every pair
+        parfor_common.run_parfor(ctx, replay, "C14", THEOREMS, "DispensoVerif.Props.C14", known_probe=False,
+                                 thorough_samples=2000, thorough_stride=5)
+        if replay:
+            return
+    else:
+        ctx.prove("DispensoVerif.Props.C14", THEOREMS)
+    ctx.cov["rule"] += ("; concurrent layer: the same call on a real ThreadPool (1..3 threads + caller) under the deterministic "
+                        "scheduler (whole library instrumented), ranges of 0..60 indices, all chunking modes, wait true/false, "
+                        "granularity tails, reuseExistingState, pre-loaded task sets (inline workers), calls issued from a pool "
+                        "thread; per-state in-use counters as oracle; the trace of body begins/ends (state index by pointer "
+                        "identity) and of the fetch_add(1) operations on the shared chunk index is replayed through the Lean "
+                        "execution model; distinct = (chunking, wait, pool, tail, invocations, tickets seen, max overlap)")
+    src = os.path.join(vlib.HARNESS, "conc", "c14_parfor_conc.cpp")
+    exe, log = vlib.build_dsched_harness(src, with_lib=True)
+    if not exe:
+        ctx.broken.append(("harness:c14_parfor_conc", "does not compile against the current tree: " + log[-1500:]))
+        return
+    args = replay["args"] if conc_only and replay.get("args") else [ctx.seed, 400 if ctx.tier == "quick" else 6000]
+    res = vlib.trace_validate(ctx, "parforx", exe, args, timeout=3000, max_report=6)
+    # a trace the model accepts step by step but whose exit tickets are drawn with too weak a memory order is a
+    # finding about the code (reported with its own signature), not a broken correspondence
+    order = [m for m in res["mismatches"] if str(m.get("model", "")).startswith("MISMATCH order:")]
+    res["mismatches"] = [m for m in res["mismatches"] if m not in order]
+    if order:
+        m = order[0]
+        ctx.fail(ORDER_SIG, "%s; scenario: %s" % (m["model"][len("MISMATCH "):], m.get("desc", "")),
+                 {"kind": "schedule", "harness": "conc/c14_parfor_conc.cpp", "args": [str(a) for a in args],
+                  "trace_tail": m.get("prefix", [])[-12:]})
+    vlib.standard_verdict(ctx, "parforx", res, args, "conc/c14_parfor_conc.cpp")
